@@ -141,7 +141,10 @@ def c07(sc, ctx, ex, ob, V, P):
     for tid in ob.order:
         o = ob.by_id[tid]
         if o.start is None or o.end is None:
-            continue  # C06 reports missing dates
+            # a LEAF without dates is C06's business; a summary of a returned schedule without a start or an end carries no roll-up
+            if o.children and not ctx.milestone(tid):
+                V('summary-without-dates', '-', f'summary {tid}: start {o.start}, end {o.end} in a returned schedule')
+            continue
         leaf = not o.children
         if leaf and ctx.fixed_end(tid) and not ctx.fixed_start(tid):
             # domain note: a completed task without a recorded start. C02 demands that a computed start is not
